@@ -160,7 +160,7 @@ def multi_case(res, W, rng, tier):
         frames.append((R.CONT, b"end", 1))
     stream = b"".join(R.encode(op, p, fin=fin, key=(rng.randbytes(4) if rng.random() < 0.3 else None)) for op, p, fin in frames)
     stream += R.encode(R.BINARY, SENT)
-    mode = rng.choice(["recv_frame", "recv_data_frame", "recv_data", "recv", "recv_data_frame_cf"])
+    mode = rng.choice(["recv_frame", "recv_data_frame", "recv_data", "recv", "recv_data_frame_cf", "next", "iter"])
     cf = mode.endswith("_cf")
     name = mode.replace("_cf", "")
     script = [(name, cf)] * (len(frames) + 2)
